@@ -4,6 +4,7 @@ import (
 	"fmt"
 	"gopkg.in/src-d/hercules.v10/verifharness/hv"
 	"math/rand"
+	"sort"
 
 	"gopkg.in/src-d/hercules.v10/internal/rbtree"
 )
@@ -29,9 +30,31 @@ func main() {
 		fmt.Fprintln(wo, "new")
 		fmt.Fprintln(wi, "ok")
 		keyRange := 4 + rng.Intn(60)
+		// keys: small integers, or (every third tree) an increasing table spread over the whole uint32 range with the
+		// boundaries 0, 2^31-1, 2^31 and 2^32-1, so that differences of keys exceed 31 bits
+		keys := make([]uint32, keyRange+2)
+		for i := range keys {
+			keys[i] = uint32(i)
+		}
+		if rng.Intn(3) == 0 {
+			set := map[uint32]bool{0: true, 1<<31 - 1: true, 1 << 31: true, 1<<32 - 1: true}
+			for len(set) < len(keys) {
+				if rng.Intn(3) == 0 {
+					set[uint32(rng.Intn(50))] = true
+				} else {
+					set[rng.Uint32()] = true
+				}
+			}
+			var ks []uint32
+			for k := range set {
+				ks = append(ks, k)
+			}
+			sort.Slice(ks, func(i, j int) bool { return ks[i] < ks[j] })
+			copy(keys, ks[:len(keys)])
+		}
 		n := 5 + rng.Intn(120)
 		for i := 0; i < n; i++ {
-			k := uint32(rng.Intn(keyRange))
+			k := keys[rng.Intn(keyRange)]
 			var flag bool
 			if rng.Intn(5) < 3 {
 				v := uint32(rng.Intn(1000))
